@@ -241,3 +241,43 @@ def make_manager(bat, U, cid, leader=True):
     so = FakeSyncObj(cid, impl, leader=leader)
     impl._syncObj = so
     return mgr, impl, so
+
+
+# ---------------------------------------------------------------------------------------------------
+# "a holder that shows up in time never loses its lock" -- checked on a real replica at the log head
+# ---------------------------------------------------------------------------------------------------
+class KeepMonitor(object):
+    """Applies the common log to a real `_ReplLockManagerImpl` and checks, per applied command, the
+    property clause: a lock held by Y with time t_y leaves Y's hands only through Y's own release or through
+    a command stamped later than t_y + U (expiry).  Anything else took a properly held lock away.
+    `apply` returns (return value, violation-or-None, flags)."""
+
+    def __init__(self, bat, U):
+        self.U = U
+        self.impl = bat._ReplLockManagerImpl(U)
+
+    def apply(self, cmd):
+        before = dict((e[0], (e[1], e[2])) for e in table_of(self.impl))
+        r = apply_cmd(self.impl, cmd)
+        after = dict((e[0], (e[1], e[2])) for e in table_of(self.impl))
+        stamp = cmd[-1] if cmd[0] in ("acq", "pro") else None
+        flags = []
+        viol = None
+        if cmd[0] == "pro":
+            for l, (c0, t0) in before.items():
+                if c0 != cmd[1] and t0 > stamp + self.U:
+                    flags.append("pro.stale-while-fresh-lock-of-another-client")
+        for l, (c0, t0) in before.items():
+            if l in after and after[l][0] == c0:
+                continue
+            if cmd == ("rel", l, c0):
+                continue
+            if stamp is not None and stamp > t0 + self.U:
+                continue
+            kind = {"acq": "acquire", "pro": "prolongate", "rel": "release"}[cmd[0]]
+            viol = {"signature": "batteries._ReplLockManagerImpl.%s:held-lock-dropped-before-expiry" % kind,
+                    "what": "L%d held by client %d with time %d (U=%d) is %s after %s -- not the holder's release, "
+                            "and the stamp is not later than %d+%d: the holder lost the lock without release and without expiry"
+                            % (l, c0, t0, self.U, ("held by %d" % after[l][0]) if l in after else "gone", cmd_str(cmd), t0, self.U)}
+            break
+        return r, viol, flags
